@@ -49,6 +49,8 @@ def integrands(dom):
         "L/grad": (inner(grad(f), grad(v)), [v]), "L/dot_w_gradv": (dot(w, grad(v)), [v]),
         "L/conj": (f * conj(v), [v]), "L/affine": (f * v + f, [v]), "L/affine2": ((v + 1) * f, [v]),
         "L/quadratic": (v * v * f, [v]), "L/sin": (sin(v) * f, [v]), "L/div_by_v": (f / v, [v]),
+        "L/f_exp_v": (f * exp(v), [v]), "L/v_exp_v": (conj(v) * exp(v), [v]), "L/v_abs_v": (conj(v) * abs(v) * f, [v]),
+        "L/v_sin_v": (conj(v) * sin(v), [v]),
         "L/v_div_f": (conj(v) / f, [v]), "L/abs": (abs(v) * f, [v]), "L/pow1": (v**1 * f, [v]),
         "L/cond_v_0": (conditional(lt(f, k), conj(v), 0) * f, [v]), "L/cond_0_v": (conditional(lt(f, k), 0, conj(v)), [v]),
         "L/cond_v_v": (conditional(lt(f, k), conj(v) * f, conj(v) * k), [v]),
@@ -56,6 +58,10 @@ def integrands(dom):
         "L/cond_on_v": (conditional(lt(v, k), f, k), [v]),
         "L/cond_const_v": (conditional(lt(f, k), 1, conj(v)), [v]), "L/cond_f_v": (conditional(lt(f, k), f, conj(v)), [v]),
         "L/cond_f_fv": (conditional(lt(f, k), f, f * conj(v)), [v]), "L/cond_0_v_times": (conditional(lt(f, k), 0, conj(v)) * f, [v]),
+        # one argument with different conjugation in different components of a list tensor (either order)
+        "L/list_mixed_conj_last": (as_vector([vv[0], conj(vv[1])])[i] * w[i] if g == 2 else f * conj(v), [vv] if g == 2 else [v]),
+        "L/list_mixed_conj_first": (as_vector([conj(vv[0]), vv[1]])[i] * w[i] if g == 2 else f * conj(v), [vv] if g == 2 else [v]),
+        "L/list_both_conj": (as_vector([conj(vv[0]), 2 * conj(vv[1])])[i] * w[i] if g == 2 else f * conj(v), [vv] if g == 2 else [v]),
         "L/list_v_0": (as_vector([conj(v), 0])[i] * w[i] if g == 2 else f * conj(v), [v]),
         "L/list_v_1": (as_vector([conj(v), 1])[i] * w[i] if g == 2 else f * conj(v) + f, [v]),
         "L/list_v_f": (dot(as_vector([conj(v), f] + [0] * (g - 2)), w), [v]),
@@ -140,8 +146,11 @@ def run(spec):
     from ufl.algorithms.check_arities import ArityMismatch, check_integrand_arity
 
     name = spec["name"]
-    dom = mesh(spec["cell"])
-    e, args = integrands(dom)[spec["key"]]
+    if "_integrand" in spec:
+        e, args = spec["_integrand"]          # built by run_seq on the same mesh as the earlier integrands
+    else:
+        dom = mesh(spec["cell"])
+        e, args = integrands(dom)[spec["key"]]
     cm = spec["complex"]
     if spec.get("lower", True):
         from ufl.algorithms import expand_derivatives
@@ -192,7 +201,28 @@ def run_twin(spec):
     return outcome(name, r.status, twin=True)
 
 
+def run_seq(spec):
+    """History: the checker is first applied to integrands it must reject (in the same process), then to the
+    integrand of the obligation; an acceptance must still mean multilinearity."""
+    from ufl.algorithms.check_arities import ArityMismatch, check_integrand_arity
+
+    dom = mesh(spec["cell"])
+    E = integrands(dom)
+    for k in spec["before"]:
+        e, args = E[k]
+        from ufl.algorithms import expand_derivatives
+        from ufl.algorithms.apply_algebra_lowering import apply_algebra_lowering
+
+        try:
+            check_integrand_arity(expand_derivatives(apply_algebra_lowering(e)), args, spec["complex"])
+        except ArityMismatch:
+            pass
+    return run(dict(spec, lower=True, _integrand=E[spec["key"]]))
+
+
 def dispatch(spec):
+    if spec.get("before"):
+        return run_seq(spec)
     return run_twin(spec) if spec.get("twinrun") else run(spec)
 
 
@@ -205,6 +235,11 @@ def specs(tier):
         for k in keys:
             for cm in (False, True):
                 S.append(dict(name=f"{cell}/{'complex' if cm else 'real'}/{k}", cell=cell, key=k, complex=cm))
+    for before, k in ((["L/f_exp_v"], "L/v_exp_v"), (["L/sin", "L/abs"], "L/v_abs_v"), (["L/f_exp_v", "L/sin"], "L/v_sin_v"),
+                      (["L/quadratic", "L/div_by_v"], "L/f*v"), (["L/f_exp_v"], "L/conj")):
+        for cm in (False, True):
+            S.append(dict(name=f"seq/{'+'.join(b.split('/')[1] for b in before)}->{k}/{'complex' if cm else 'real'}", cell="triangle",
+                          key=k, complex=cm, before=before))
     for k, cm in (("L/affine", False), ("L/quadratic", False), ("B/u*v+v", False), ("L/inner(v,f)", True),
                   ("B/inner(v,u)", True), ("L/cond_v_const", False)):
         S.append(dict(name=f"twin/{k}/{cm}#twin", key=k, complex=cm, twinrun=True))
